@@ -602,7 +602,7 @@ class Engine2:
                 for st_ in b['stmts']:
                     for x in walk(st_['s']):
                         tgt = None
-                        ap = assign_parts(x)
+                        ap = assign_parts_raw(x)
                         if ap:
                             tgt = ap[0]
                         elif is_incdec(x) or (x.get('k') == 'UnaryOperator' and x.get('op') == '&'):
@@ -904,7 +904,7 @@ class Engine2:
             j = join_states(st, s1, self.min_sizes)
             st.env, st.facts = j.env, j.facts
             return
-        ap = assign_parts(e)
+        ap = assign_parts_raw(e)
         for kk, v in e.items():
             if kk in ('t', 'ot', 'ct', 'pt'):
                 continue
@@ -1172,7 +1172,7 @@ class Engine2:
         keys = set()
         fields = False
         for x in walk(node):
-            ap = assign_parts(x)
+            ap = assign_parts_raw(x)
             t = ap[0] if ap else (x['e'] if is_incdec(x) else None)
             if t is not None:
                 key = self.key_of(t)
